@@ -241,7 +241,7 @@ def writer_edges(quick=True):
     # the error flag
     ops += ["wr new", "wr HasError", "wr WriteError 455252", "wr HasError", "wr WriteOK", "wr HasError", "wr Flush", "wr HasError", "wr WriteOK", "wr HasError",
             "wr WriteError -", "wr HasError", "wr new", "wr HasError", "wr dump"]
-    # 10^4 writes without a flush (every write past the first 4096 bytes grows the buffer by its own size)
+    # 10^4 writes without a flush (a growing writeBytes adds exactly its own size; slack comes back only with a type byte at w == len)
     ops.append("wr new")
     for i in range(10000):
         if i % 7 == 3:
